@@ -219,6 +219,8 @@ pub struct Restored {
     pub truncate: Option<u64>,
     pub uid: String,
     pub queues: Vec<u32>,
+    /// queues restored with known worker resources
+    pub queues_with_worker_resources: Vec<u32>,
 }
 
 pub fn restore_file(path: &Path) -> Result<Restored, String> {
@@ -277,6 +279,8 @@ pub fn restore_file(path: &Path) -> Result<Restored, String> {
         }
         let mut queues: Vec<u32> = out.queues.iter().map(|q| q.queue_id).collect();
         queues.sort_unstable();
+        let mut queues_with_worker_resources: Vec<u32> = out.queues.iter().filter(|q| q.worker_resources.is_some()).map(|q| q.queue_id).collect();
+        queues_with_worker_resources.sort_unstable();
         Ok(Restored {
             jobs,
             tasks,
@@ -286,6 +290,7 @@ pub fn restore_file(path: &Path) -> Result<Restored, String> {
             truncate: out.truncate_size,
             uid: out.server_uid,
             queues,
+            queues_with_worker_resources,
         })
     }));
     match r {
@@ -473,6 +478,9 @@ fn summary_eq(a: &Restored, b: &Restored) -> Option<String> {
     if a.queues != b.queues {
         return Some(format!("queues differ: {:?} vs {:?}", a.queues, b.queues));
     }
+    if a.queues_with_worker_resources != b.queues_with_worker_resources {
+        return Some(format!("queue worker resources differ: queues restored with known worker resources {:?} vs {:?}", a.queues_with_worker_resources, b.queues_with_worker_resources));
+    }
     None
 }
 
@@ -522,65 +530,118 @@ fn read_all(path: &Path) -> Result<Vec<Event>, String> {
 
 /* ------------------------------------- one journal ------------------------------------------ */
 
-/// Inserts allocation-queue and allocation records at random positions (deterministic in `seed`).
-/// Prune points are record indices: they are shifted by the records inserted before them.
+/// Inserts allocation-queue, allocation and allocation-worker records at random positions
+/// (deterministic in `seed`). Prune points are record indices: they are shifted by the records
+/// inserted before them, and a spliced worker that is connected at the moment of a prune request
+/// is added to the live workers of that request (the real server would list it).
 pub fn splice_queue_records(events: &[Event], prune_points: &[(usize, Vec<u32>, Vec<u32>)], seed: u64, rep: &mut Rep) -> (Vec<Event>, Vec<(usize, Vec<u32>, Vec<u32>)>) {
     let mut rng = Rng::new(seed);
     if events.len() < 3 || rng.chance(30, 100) {
         return (events.to_vec(), prune_points.to_vec());
     }
-    let n = rng.range(1, 8) as usize;
-    // positions (after the first record, which is ServerStart) in ascending order
-    let mut positions: Vec<usize> = (0..n).map(|_| rng.range(1, events.len() as u64) as usize).collect();
-    positions.sort_unstable();
-    let mut out: Vec<Event> = Vec::with_capacity(events.len() + n);
+    // 1. the records, in the order in which they will appear
+    let mut planned: Vec<EventPayload> = Vec::new();
     let mut next_queue = 1u32;
     let mut live: Vec<u32> = Vec::new();
     let mut allocs: Vec<(u32, String)> = Vec::new();
+    let mut alloc_workers: Vec<u32> = Vec::new();
+    let mut next_alloc_worker = 5000u32;
+    let n = rng.range(1, 14) as usize;
+    let new_queue = |live: &mut Vec<u32>, next_queue: &mut u32| {
+        let id = *next_queue;
+        *next_queue += 1;
+        live.push(id);
+        EventPayload::AllocationQueueCreated(id, Box::new(crate::queueids::params(id)))
+    };
+    while planned.len() < n {
+        let payload = match rng.below(10) {
+            0 | 1 => new_queue(&mut live, &mut next_queue),
+            2 if !live.is_empty() => {
+                let id = live.remove(rng.usize_below(live.len()));
+                EventPayload::AllocationQueueRemoved(id)
+            }
+            3 | 4 if !live.is_empty() => {
+                let q = *rng.pick(&live);
+                let a = format!("a{}", allocs.len() + 1);
+                allocs.push((q, a.clone()));
+                EventPayload::AllocationQueued { queue_id: q, allocation_id: a, worker_count: 1 }
+            }
+            5 if !allocs.is_empty() => {
+                let (q, a) = rng.pick(&allocs).clone();
+                if rng.chance(60, 100) { EventPayload::AllocationStarted(q, a) } else { EventPayload::AllocationFinished(q, a) }
+            }
+            6 | 7 if !allocs.is_empty() => {
+                // a worker started by an allocation connects: the queue learns its workers' resources
+                let (_q, a) = rng.pick(&allocs).clone();
+                next_alloc_worker += 1;
+                alloc_workers.push(next_alloc_worker);
+                let mut cfg = conv::worker_configuration(&WorkerSpec { resources: vec![ResSpec { name: "cpus".into(), kind: ResKind::Range(8) }], group: "alloc".into(), time_limit_s: None }, next_alloc_worker);
+                let info = hyperqueue::common::manager::info::ManagerInfo { manager: hyperqueue::common::manager::info::ManagerType::Slurm, allocation_id: a, time_limit: Some(Duration::from_secs(3600)), max_memory_mb: None };
+                cfg.extra.insert(hyperqueue::common::manager::info::WORKER_EXTRA_MANAGER_KEY.to_string(), serde_json::to_string(&info).unwrap());
+                rep.c("allocation_workers_spliced", 1);
+                EventPayload::WorkerConnected(next_alloc_worker.into(), Box::new(cfg))
+            }
+            8 | 9 if !alloc_workers.is_empty() => {
+                // ... and is gone later (then it is not among the live workers of later prune requests)
+                let w = alloc_workers.remove(rng.usize_below(alloc_workers.len()));
+                rep.c("allocation_workers_lost", 1);
+                EventPayload::WorkerLost(w.into(), tako::gateway::LostWorkerReason::Stopped)
+            }
+            _ if live.is_empty() => new_queue(&mut live, &mut next_queue),
+            _ => {
+                let q = *rng.pick(&live);
+                let a = format!("a{}", allocs.len() + 1);
+                allocs.push((q, a.clone()));
+                EventPayload::AllocationQueued { queue_id: q, allocation_id: a, worker_count: 1 }
+            }
+        };
+        planned.push(payload);
+    }
+    // 2. their positions (after the first record, which is ServerStart), ascending
+    // (biased towards the first part of the journal, so that prune requests see complete lifecycles)
+    let hi = if rng.chance(60, 100) { (events.len() * 5 / 10).max(2) } else { events.len() };
+    let mut positions: Vec<usize> = (0..planned.len()).map(|_| rng.range(1, hi as u64) as usize).collect();
+    positions.sort_unstable();
+    let mut out: Vec<Event> = Vec::with_capacity(events.len() + planned.len());
     let mut inserted_before: Vec<usize> = vec![0; events.len() + 1];
+    // (worker, index in the new journal of its connect record, index of its loss record)
+    let mut life: Vec<(u32, usize, Option<usize>)> = Vec::new();
     let mut k = 0usize;
-    let mut count = 0usize;
+    let mut planned = planned.into_iter();
     for (i, e) in events.iter().enumerate() {
         while k < positions.len() && positions[k] == i {
             k += 1;
-            let payload = match rng.below(6) {
-                0 | 1 => {
-                    let id = next_queue;
-                    next_queue += 1;
-                    live.push(id);
-                    EventPayload::AllocationQueueCreated(id, Box::new(crate::queueids::params(id)))
+            let payload = planned.next().unwrap();
+            match &payload {
+                EventPayload::WorkerConnected(w, _) => life.push((w.as_num(), out.len(), None)),
+                EventPayload::WorkerLost(w, _) => {
+                    if let Some(l) = life.iter_mut().find(|l| l.0 == w.as_num()) {
+                        l.2 = Some(out.len());
+                    }
                 }
-                2 if !live.is_empty() => {
-                    let id = live.remove(rng.usize_below(live.len()));
-                    EventPayload::AllocationQueueRemoved(id)
-                }
-                3 | 4 if !live.is_empty() => {
-                    let q = *rng.pick(&live);
-                    let a = format!("a{}", allocs.len() + 1);
-                    allocs.push((q, a.clone()));
-                    EventPayload::AllocationQueued { queue_id: q, allocation_id: a, worker_count: 1 }
-                }
-                5 if !allocs.is_empty() => {
-                    let (q, a) = rng.pick(&allocs).clone();
-                    if rng.chance(50, 100) { EventPayload::AllocationStarted(q, a) } else { EventPayload::AllocationFinished(q, a) }
-                }
-                _ => {
-                    let id = next_queue;
-                    next_queue += 1;
-                    live.push(id);
-                    EventPayload::AllocationQueueCreated(id, Box::new(crate::queueids::params(id)))
-                }
-            };
+                _ => {}
+            }
             out.push(Event::at(e.time, payload));
-            count += 1;
             rep.c("queue_records_spliced", 1);
         }
-        inserted_before[i] = count;
+        inserted_before[i] = k;
         out.push(e.clone());
     }
-    inserted_before[events.len()] = count;
-    let pp = prune_points.iter().map(|(len, j, w)| (len + inserted_before[(*len).min(events.len())], j.clone(), w.clone())).collect();
-    if count > 0 {
+    inserted_before[events.len()] = k;
+    let pp = prune_points
+        .iter()
+        .map(|(len, j, w)| {
+            let new_len = len + inserted_before[(*len).min(events.len())];
+            let mut w = w.clone();
+            for (wid, c, l) in &life {
+                if *c < new_len && l.map(|l| l >= new_len).unwrap_or(true) {
+                    w.push(*wid);
+                }
+            }
+            (new_len, j.clone(), w)
+        })
+        .collect();
+    if k > 0 {
         rep.c("journals_with_queue_records", 1);
     }
     (out, pp)
@@ -670,6 +731,23 @@ pub fn check_journal(events: &[Event], prune_points: &[(usize, Vec<u32>, Vec<u32
         }
         if m > 0 {
             rep.c("prunes_with_unflushed_records", 1);
+        }
+        {
+            // does the prefix contain an allocation worker that connected and is gone again?
+            let mut connected: BTreeSet<u32> = BTreeSet::new();
+            let mut gone = false;
+            for e in &events[..idx] {
+                match &e.payload {
+                    EventPayload::WorkerConnected(w, c) if hyperqueue::common::manager::info::GetManagerInfo::get_manager_info(&**c).is_some() => {
+                        connected.insert(w.as_num());
+                    }
+                    EventPayload::WorkerLost(w, _) if connected.contains(&w.as_num()) => gone = true,
+                    _ => {}
+                }
+            }
+            if gone {
+                rep.c("prunes_after_allocation_worker_loss", 1);
+            }
         }
         let buffered: Vec<Event> = events[idx - m..idx].to_vec();
         let appended: Vec<Event> = events[idx..].iter().take(rng.usize_below(12) + 1).cloned().collect();
